@@ -258,7 +258,8 @@ func (o *Optimizer) OptimizeStatements(stmts []ast.Statement) []ast.Statement {
 		case *ast.ReturnStatement:
 			// Optimize return value
 			optimized := &ast.ReturnStatement{
-				Value: o.OptimizeExpression(s.Value),
+				Value:  o.OptimizeExpression(s.Value),
+				Status: s.Status,
 			}
 			result = append(result, optimized)
 			reachedReturn = true
